@@ -346,8 +346,10 @@ def known_match(prop, sig):
 
 # ------------------------------------------------------------------ evidence
 def write_evidence(prop, ev):
-    os.makedirs(EVID, exist_ok=True)
-    with open(os.path.join(EVID, prop + ".json"), "w") as f:
+    # tools/try_patch.py runs the checks against a deliberately broken tree: that run's record goes elsewhere
+    d = os.environ.get("VERIF_EVIDENCE_DIR") or EVID
+    os.makedirs(d, exist_ok=True)
+    with open(os.path.join(d, prop + ".json"), "w") as f:
         json.dump(ev, f, indent=1, sort_keys=False)
 
 
